@@ -172,6 +172,11 @@ func (m *monitor) addUni(a common.Address, label string) {
 	}
 	m.uni[a] = label
 	m.uniOrder = append(m.uniOrder, a)
+	if m.adb != nil && m.total != nil {
+		b := m.adb.GetBalance(a)
+		m.total.Add(m.total, b)
+		m.ceil.Add(m.ceil, b)
+	}
 }
 
 func (m *monitor) resolve(ref string) common.Address {
@@ -517,6 +522,8 @@ func (m *monitor) destroySet(b *built, pre *obs) []*big.Int {
 		var c common.Address
 		if d.Contract == "created" {
 			c = b.created
+		} else if d.Contract == "child0" {
+			c = crypto.CreateAddress(b.created, 1)
 		} else {
 			c = m.resolve(d.Contract)
 		}
